@@ -46,10 +46,15 @@ def _matches_directory_pattern(path: str, pattern: str) -> bool:
         True if path is within the directory
     """
     dir_pattern = pattern.rstrip("/")
-    path_parts = Path(path).parts
-    if dir_pattern in path_parts:
+    # A leading "**/" means "at any depth", which includes the top level
+    if dir_pattern.startswith("**/"):
+        dir_pattern = dir_pattern[3:]
+    # Only directory components can match a directory pattern, never the file name itself
+    dir_parts = Path(path).parts[:-1]
+    if any(fnmatch.fnmatch(part, dir_pattern) for part in dir_parts):
         return True
-    return fnmatch.fnmatch(path, dir_pattern + "*")
+    # Multi-component directory patterns (e.g. "src/generated/") are anchored at the root
+    return "/" in dir_pattern and fnmatch.fnmatch(path, dir_pattern + "/*")
 
 
 def extract_patterns_from_content(content: str) -> list[str]:
